@@ -787,7 +787,7 @@ class _Frame:
                 return obj.T
             if attr in ("shape", "ndim", "size"):
                 return getattr(obj, attr)
-            if attr in ("reshape", "ravel", "flatten", "transpose", "copy", "sum", "tolist"):
+            if attr in ("reshape", "ravel", "flatten", "transpose", "copy", "sum", "mean", "tolist"):
                 return getattr(obj, attr)
             if attr == "astype":
                 return lambda *a, **k: obj
